@@ -33,7 +33,10 @@ ASSUMPTIONS = [
     "reference outcomes are computed in fresh interpreters (subprocess per (std, source))",
     "successful parses legitimately leave their symbol tables behind (the property only constrains create and failing parses)",
 ]
-BOUNDS = {"quick": dict(length=4), "thorough": dict(length=5, alphabet="9 symbols at depth 5")}
+BOUNDS = {
+    "quick": dict(length=4, note="11-op core alphabet to length 4; all 19 ops to length 3; every create-parse-create-parse history over all sources"),
+    "thorough": dict(length=5, note="all 19 ops to length 4; 9-op alphabet to length 5"),
+}
 
 SOURCES = {
     "v1": "program p\n integer :: sin(3)\n sin(1) = 1\nend program p\n",
@@ -43,6 +46,8 @@ SOURCES = {
     "v5": "submodule (m) p\ncontains\n subroutine sin()\n end subroutine sin\nend submodule p\n",
     "v6": "module p\n integer :: tan\ncontains\n subroutine s()\n  x = tan(1.0) + cos(2.0)\n end subroutine s\nend module p\n",
     "v7": "program p\n use mm, only: tan\n x = 1\nend program p\n",
+    "v8": "program p\n open(unit=10, file='x', status='old')\n write(10, *) x\nend program p\n",
+    "v9": "program p\n open(newunit=u, file='x')\n error stop\nend program p\n",
     "i1": "this is not fortran\n",
     "i2": "module p\ncontains\nsubroutine s\n integer :: sin\n nm: do i = 1, 2\n end do zz\nend subroutine s\nend module p\n",
     "i3": " integer :: cos\n x = = 1\n end\n",
@@ -52,6 +57,9 @@ SOURCES = {
 }
 OPS = ["c3", "c8"] + sorted(SOURCES)
 OPS_SMALL = ["c3", "c8", "v1", "v2", "v3", "v4", "i2", "i3", "i4"]
+# core alphabet explored to the full length in the quick tier
+OPS_CORE = ["c3", "c8", "v1", "v2", "v3", "v7", "i2", "i3", "i4", "i5", "i6"]
+CREATES = ["c3", "c8"]
 _STD = {"c3": "f2003", "c8": "f2008"}
 
 _state = {"parser": None}
@@ -138,23 +146,25 @@ def compute_refs():
 def plan(tier, seed):
     if not _REFS:
         compute_refs()
-    L = BOUNDS[tier]["length"]
-    ops = OPS
-    tasks = []
+    srcs = sorted(SOURCES)
+    tasks = [("T", (), 1, "full")]
+    for a in OPS:
+        tasks.append(("T", (a,), 2, "full"))
     if tier == "quick":
-        for a in ops:
-            for b in ops:
-                tasks.append(("T", (a, b), L, "full"))
-        tasks.append(("T", (), 1, "full"))
-        for a in ops:
-            tasks.append(("T", (a,), 2, "full"))
+        for a in OPS:
+            for b in OPS:
+                tasks.append(("T", (a, b), 3, "full"))
+        for a in OPS_CORE:
+            for b in OPS_CORE:
+                tasks.append(("T", (a, b), 4, "core"))
+        # the property's first sentence: create; parse(x); create; parse(y)
+        for c in CREATES:
+            for x in srcs:
+                tasks.append(("T", (c, x), 4, "cpcp"))
     else:
-        for a in ops:
-            for b in ops:
+        for a in OPS:
+            for b in OPS:
                 tasks.append(("T", (a, b), 4, "full"))
-        tasks.append(("T", (), 1, "full"))
-        for a in ops:
-            tasks.append(("T", (a,), 2, "full"))
         for a in OPS_SMALL:
             for b in OPS_SMALL:
                 tasks.append(("T", (a, b), 5, "small"))
@@ -176,7 +186,7 @@ def _subtree(prefix, depth_total, ops):
 
 def run(task):
     _, prefix, depth_total, which = task
-    ops = OPS if which == "full" else OPS_SMALL
+    ops = {"full": OPS, "small": OPS_SMALL, "core": OPS_CORE, "cpcp": [CREATES, sorted(SOURCES)]}[which]
     res = Result()
     recs = forktree.run_isolated(_subtree, list(prefix), depth_total, ops)
     if isinstance(recs, tuple) and recs and recs[0] == "HARNESS-ERROR":
